@@ -202,10 +202,14 @@ class MdocSpec(BFSSpec):
 
         out = []
         for name, doc in (("docA", doc_A(self.seed)), ("docB", doc_B(self.seed))):
-            p = os.path.abspath(f"init_{name}.mdoc")
-            with open(p, "w") as f:
+            import tempfile
+
+            fd, p = tempfile.mkstemp(suffix=".mdoc", prefix=f"init_{name}_")
+            with os.fdopen(fd, "w") as f:
                 f.write(mdoc_text(*doc))
             m = mdoc.Mdoc(p)
+            os.unlink(p)
+            m.file_path = "init.mdoc"
             model = {"hdr": obj_header(m), "titles": list(m.titles), "imgs": obj_images(m)}
             out.append((name, {"m": m, "model": model}))
         return out
